@@ -36,7 +36,9 @@ var curBoundary string
 
 var contentClasses = []string{"printf", "lines", "ssefield", "boundary", "quotes", "nonascii", "html", "ctrl", "long"}
 
-var contentPlaces = []string{"data-value", "data-key", "error-message", "error-extensions", "extensions", "label", "path", "panic-message"}
+var contentPlaces = []string{"data-value", "data-key", "error-message", "error-extensions", "extensions", "label", "path",
+	// the text of the panic that ends the operation, through each arm of nextResponse (RecoverFunc returns a *gqlerror.Error / a plain error / a wrapped *gqlerror.Error)
+	"panic-message/gqlerror", "panic-message/error", "panic-message/wrapped"}
 
 var printfBits = []string{
 	"%", "100%", "%s", "%d", "%v", "%+v", "%q", "%x", "%%", "%%%", "%!", "%!s(MISSING)", "%[1]s", "%[2]d", "%*d", "%.3f", "%-5s",
@@ -167,8 +169,8 @@ func placeContent(r *rng.R, pl *payload, class, place string) {
 	}
 }
 
-// genContentCase: three back-to-back payloads that all carry text of <class> at <place>; for the place
-// "panic-message" two plain payloads, then the operation ends by a panic whose text is of the class (the
+// genContentCase: three back-to-back payloads that all carry text of <class> at <place>; for the places
+// "panic-message/*" two plain payloads, then the operation ends by a panic whose text is of the class (the
 // RecoverFunc puts it into message, path and extensions of the error the transport has to deliver).
 func genContentCase(r *rng.R, id int, kind, class, place string) *plan {
 	p := &plan{id: id, kind: kind, disc: -1, cancelAt: -1, body: `{"query":"{ x }"}`, shape: true, desc: "content:" + class + "@" + place}
@@ -184,20 +186,18 @@ func genContentCase(r *rng.R, id int, kind, class, place string) *plan {
 	if class == "long" {
 		n = 2
 	}
-	if place == "panic-message" {
+	isPanic := strings.HasPrefix(place, "panic-message")
+	if isPanic {
 		p.panicEnd = true
 		p.panicVal = r.Below(5)
-		p.recoverKind = 1 + r.Below(4)
-		if p.recoverKind == 3 {
-			p.recoverKind = 1 // (a RecoverFunc returning nil drops the text)
-		}
+		p.recoverKind = map[string]int{"panic-message/gqlerror": 1, "panic-message/error": 2, "panic-message/wrapped": 4}[place]
 		p.panicMsg = genContent(r, class)
 		n = 2
 	}
 	t, f := true, false
 	for i := 0; i < n; i++ {
 		pl := payload{data: json.RawMessage(`{"x":1}`)}
-		if place != "panic-message" {
+		if !isPanic {
 			placeContent(r, &pl, class, place)
 		}
 		if kind == "mp" {
